@@ -206,8 +206,10 @@ DOC_LINE = re.compile(r"(?m)^[ \t]*//[/!][^\n]*\n")
 PUB_RE = re.compile(r"\bpub(?:\((?:crate|super|self|in [\w:]+)\))?\s+")
 
 
-def transform(text, log, where):
-    """Rules R1, R2 on already-extracted text (comments/strings protected through masking)."""
+def transform(text, log, where, keep_eq=False):
+    """Rules R1, R2 on already-extracted text (comments/strings protected through masking).
+    keep_eq: a derived `PartialEq, Eq` is kept as `PartialEq, Eq, Structural` (Verus' form of a derived
+    structural equality), so that code comparing values of the type with == / != stays ingestible."""
     # R1 attributes + doc comments (line based, they never sit inside strings in the items we take)
     n_attr = 0
 
@@ -216,7 +218,10 @@ def transform(text, log, where):
         line = mm.group(0)
         dm = re.match(r"([ \t]*)#\[derive\(([^)]*)\)\]", line)
         if dm:
-            keep = [x.strip() for x in dm.group(2).split(",") if x.strip() in ("Clone", "Copy")]
+            names = [x.strip() for x in dm.group(2).split(",") if x.strip()]
+            keep = [x for x in names if x in ("Clone", "Copy")]
+            if keep_eq and "PartialEq" in names and "Eq" in names:
+                keep += ["PartialEq", "Eq", "Structural"]
             if keep:
                 if len(keep) != len([x for x in dm.group(2).split(",") if x.strip()]):
                     n_attr += 1
